@@ -4,6 +4,7 @@ From SCC Require Import Base.Sexp Model.RunBase Model.RunPM Model.RunX86.
 From SCC Require Import Base.Sexp Model.RunBase Model.RunPM Model.RunStages.
 From SCC Require Import Model.RunA64.
 From SCC Require Import Base.Sexp Model.RunBase Model.RunShrink.
+From SCC Require Import Model.RunFocus.
 From SCC Require Import Model.RunFun2Core.
 From SCC Require Import Model.RunSubst.
 From SCC Require Import Model.RunRT.
@@ -28,6 +29,7 @@ Definition dispatch (cmd : string) (input : string) : string :=
   | "codegen-a64" => run_codegen_a64 input
   | "shrink" => run_shrink input
   | "shrink-why" => run_shrink_why input
+  | "focus" => run_focus input
   | "fun2core" => run_fun2core input
   | "subst" => run_subst input
   | "subst-corr" => run_subst_corr input
